@@ -81,6 +81,34 @@ def _fp_probes(repo, rep, fp):
                 if -(1 << 31) <= x < (1 << 31):
                     rd.append((x, e))
     jobs.append(("rounding_divide_by_pot", _ref_rdbp, sorted(set(rd)), "gemmlowp RoundingDivideByPOT"))
+
+    def sat(bits):
+        lo, hi = -(1 << (bits - 1)), (1 << (bits - 1)) - 1
+        return lambda v: max(lo, min(hi, v))
+
+    def ref_shl(bits):
+        return lambda a, k: sat(bits)(a << k)
+
+    def ref_srmbp(x, e):
+        thr = (1 << (31 - e)) - 1
+        return (1 << 31) - 1 if x > thr else (-(1 << 31) if x < -thr else sat(32)(x << e))
+
+    def ref_down(a):
+        return 32767 if a >= (1 << 31) - 1 - (1 << 15) else (a + (1 << 15)) >> 16
+
+    def ref_mbqm(x, scale, shift):
+        sh = 31 - shift
+        left, right = (sh, 0) if sh > 0 else (0, -sh)
+        return _ref_rdbp(_ref_high_mul(32, True)(x * (1 << left), scale), right)
+
+    g32, g16 = grid(32), grid(16)
+    jobs.append(("shift_left32", ref_shl(32), [(a, k) for a in g32 for k in (0, 1, 2, 5, 15, 30, 31)], "gemmlowp ShiftLeft<int32> (saturating)"))
+    jobs.append(("shift_left16", ref_shl(16), [(a, k) for a in g16 for k in (0, 1, 2, 7, 14, 15)], "gemmlowp ShiftLeft<int16> (saturating)"))
+    jobs.append(("saturating_rounding_multiply_by_pot", ref_srmbp, [(a, k) for a in g32 for k in (0, 1, 2, 5, 15, 30)], "gemmlowp SaturatingRoundingMultiplyByPOT (positive exponent)"))
+    jobs.append(("downscale_multiplier_int32_to_int16", ref_down, [(a,) for a in g32 + [(1 << 31) - 1 - (1 << 15) - 1, (1 << 31) - 1 - (1 << 15), (1 << 31) - (1 << 15), 65535, 65536, 98303, 98304, -32768, -32769]],
+                 "TFLite DownScaleInt32ToInt16Multiplier"))
+    jobs.append(("multiply_by_quantized_multiplier", ref_mbqm, [(x, sc_, sh_) for x in (0, 1, -1, 5, -5, 127, -128, 255, 32767, -32768, 100000, -100000) for sc_ in (1 << 30, (1 << 30) + 12345, (1 << 31) - 1, 1518500250)
+                                                                  for sh_ in (29, 30, 31, 32, 33, 38, 45)], "TFLite MultiplyByQuantizedMultiplier (shift = 31 - Vela shift)"))
     for fn, ref, probes, what in jobs:
         wrong = []
         for args in probes:
